@@ -77,7 +77,8 @@ Size(t) == 1 + (IF t.a = <<>> THEN 0 ELSE Size(t.a[1])) + (IF t.b = <<>> THEN 0 
 IsCondLike(t) == t.l \in {"cond", "condf"}
 RECURSIVE ChainOk(_)
 \* an else-chain: every left operand of `|>` is a conditional or a shorter chain
-ChainOk(t) == IF t.l = "els" THEN (IsCondLike(t.a[1]) \/ (t.a[1].l = "els" /\ ChainOk(t.a[1]))) ELSE TRUE
+\* and only the LAST element of a chain may be a default (a `|>` after a default could never be reached)
+ChainOk(t) == IF t.l = "els" THEN (IsCondLike(t.a[1]) \/ (t.a[1].l = "els" /\ IsCondLike(t.a[1].b[1]) /\ ChainOk(t.a[1]))) ELSE TRUE
 RECURSIVE WF(_, _, _)
 \* body: this node is in "body position" (root, { } body, [ ] body, or under a `;` in such a position);
 \* tail: this node is in tail position of a conditional arm inside { }  (where ^~ is meaningful)
